@@ -38,9 +38,13 @@ def vc_task(task):
                           timeout_ms=task['timeout_ms'], keep_smt=1 if task.get('sample') else 0)
     # exceptions other than refusals inside an *operation* body (asserts after the verifier accepted) are
     # obligations of C07 ("a legal operation never fails part-way"), not of C08
+    # "the query answers yes exactly when performing the operation would succeed": once the verifier has accepted,
+    # the local part of the operation (up to the hand-over to the phase's `_update_*` step) must not die with an
+    # index / type / lookup error -- those exits are C08 obligations.  `assert` statements inside operations, and
+    # the pot arithmetic of push_chips, need the phase invariants of the engine: they are obligations of C07.
     if task['contract'] in c08.OPS:
         for r in res['results']:
-            if r['kind'] == 'safety':
+            if r['kind'] == 'safety' and (r['meta'].get('exception') == 'AssertionError' or task['contract'] == 'push_chips'):
                 r['prop'] = 'C07'
     return res
 
